@@ -12,11 +12,17 @@ import (
 // C11 harness: (*MultiOpQueryer).Query -> AsyncMapReduce -> queryBatch -> fetch -> sendRequest,
 // against a transport (verifDo) that records what every HTTP call carries and may fail a call.
 
-func verifClosure(name string, env ...interface{}) interface{}
 
 type vBody struct{ data []byte }
 
-func (b *vBody) Read(p []byte) (int, error) { return 0, io.EOF }
+func (b *vBody) Read(p []byte) (int, error) {
+	if len(b.data) == 0 {
+		return 0, io.EOF
+	}
+	n := copy(p, b.data)
+	b.data = b.data[n:]
+	return n, nil
+}
 func (b *vBody) Close() error               { return nil }
 
 var vTags = []string{"q0", "q1", "q2", "q3", "q4", "q5", "q6", "q7", "q8", "q9", "q10", "q11", "q12"}
@@ -68,7 +74,6 @@ func verifDo(req *http.Request) (*http.Response, error) {
 	return &http.Response{StatusCode: 200, Body: &vBody{b}}, nil
 }
 
-func verifRequestBody(r *http.Request) []byte
 
 var vEmptyErrs bool
 
@@ -76,7 +81,7 @@ func VerifQuery() {
 	vEmptyErrs = verifBool("emptyerrors") // every healthy answer of this run carries "errors": [] or none does
 	N := verifChoice("N", verifParam("nmax", 3)+1)
 	m := verifInt("m", 1, verifParam("mmax", 2))
-	q := &MultiOpQueryer{url: "u", client: &http.Client{}, maxBatchSize: m}
+	q := &MultiOpQueryer{url: "u", client: &http.Client{Transport: vNativeTransport{verifDo}}, maxBatchSize: m}
 	inputs := make([]*requests.Request, N)
 	for i := range inputs {
 		inputs[i] = &requests.Request{Query: vTags[i]}
